@@ -184,6 +184,7 @@ def ClassInfo.valueObject (c : ClassInfo) : Bool :=
    | none => false)
   && c.hasSlots && !c.hasDict && c.hashable
   && c.fields.all (fun f => f.immutableType && f.compare && f.init && !f.hasDefaultFactory)
+  && c.hashGenerated
 
 def Tables.c15 (t : Tables) : Bool := t.allClasses ClassInfo.valueObject
 
